@@ -277,7 +277,7 @@ def LogNormal.median (d : Gen.LogNormal α) : Option α := some (exp d.mu)
 def LogNormal.mode (d : Gen.LogNormal α) : Option α := some (exp (d.mu - d.sigma * d.sigma))
 def LogNormal.variance (d : Gen.LogNormal α) : Option α :=
   let s2 := d.sigma * d.sigma
-  some ((exp s2 - (1.0 : α)) * exp ((2.0 : α) * d.mu + s2))
+  some (RealLike.expm1 s2 * exp ((2.0 : α) * d.mu + s2))
 def LogNormal.skewness (d : Gen.LogNormal α) : Option α :=
   let w := exp (d.sigma * d.sigma)
   some ((w + (2.0 : α)) * sqrt (w - (1.0 : α)))
